@@ -128,6 +128,9 @@ uint64_t fnv_u64(uint64_t h, uint64_t v) { return fnv(h, (const uint8_t*)&v, 8);
 
 /* value of (column c, row r) of file fseed, as raw bytes (<= 16); returns the length */
 static int cell_bytes(uint64_t fseed, int c, long r, uint8_t out[16]) {
+    /* every third file is low-entropy: each column cycles through 1..5 values (constant columns, short periods), so that its
+     * pages are long overlapping copies for the LZ codecs - the decompressors' copy paths run in parallel too */
+    if (fseed % 3 == 0) r = r % (long)(1 + (fseed / 3 + (uint64_t)c) % 5);
     uint64_t x = mix64(fseed * 1000003ull + (uint64_t)c * 7919ull + (uint64_t)r);
     switch (c) {
     case 0: case 7: { int32_t v = (int32_t)(x % 100000) - 50000 + (c == 7 ? (int32_t)r : 0); memcpy(out, &v, 4); return 4; }
